@@ -1,6 +1,7 @@
 (* C01 -- property theorems only; each closed by `exact` and followed by Print Assumptions.
-   World / steps / M_step / guarded / cont_obs are defined in SF/Heap.v. *)
-Require Import SF.Prelude SF.Heap Proofs.HeapFrozen.
+   World / steps / M_step (implementation model) / S_step (value-semantics specification) / guarded / observations are
+   defined in SF/Heap.v; Gen/Gen_c01.v is regenerated from the source of /repo on every run. *)
+Require Import SF.Prelude SF.Heap SF.HeapAudit Gen.Gen_c01 Proofs.HeapFrozen Proofs.HeapRefine Proofs.HeapRound.
 Local Open Scope nat_scope.
 
 (* After ANY guarded history (constructions through immutable_filter / own_data, derivations by view or by
@@ -18,6 +19,15 @@ Theorem C01_immutability : forall h1 h2 c,
   cont_obs (M_run w0 (h1 ++ h2)) c = cont_obs (M_run w0 h1) c.
 Proof. exact immutability. Qed.
 Print Assumptions C01_immutability.
+
+(* REFINEMENT: on every guarded history the implementation model (copy only writeable arguments, share read-only
+   arguments, views and exposed arrays) is observationally equal to value semantics (every slot and every exposed
+   array a private frozen copy): same outcome of every step, same content and flags of every container slot and of
+   every caller array after every step. *)
+Theorem C01_refines_value_semantics : forall hist, guarded w0 hist = true ->
+  trace M_step w0 hist = trace S_step w0 hist /\ obs (M_run w0 hist) = obs (S_run w0 hist).
+Proof. exact refinement. Qed.
+Print Assumptions C01_refines_value_semantics.
 
 (* Every array the caller holds that sees memory of a container is read-only; writing through it raises. *)
 Theorem C01_exposed_readonly : forall hist k h hc,
@@ -40,3 +50,61 @@ Theorem C01_caller_isolation : forall hist k h hc,
   In hc (concat (w_conts (M_run w0 hist))) -> h_buf h <> h_buf hc.
 Proof. exact caller_isolation. Qed.
 Print Assumptions C01_caller_isolation.
+
+(* Pickle round trip of a container all of whose array slots __setstate__ re-freezes: same content, every array
+   read-only, on buffers nothing else refers to. *)
+Theorem C01_pickle_roundtrip : forall hist c hs flags,
+  guarded w0 hist = true ->
+  nth_error (w_conts (M_run w0 hist)) c = Some hs ->
+  length flags = length hs -> forallb (fun b => b) flags = true ->
+  exists w', M_step (M_run w0 hist) (SDerive c (pickle_dsrcs_from 0 flags)) = Ok w' /\
+    step_ok (M_run w0 hist) (SDerive c (pickle_dsrcs_from 0 flags)) = true /\
+    cont_obs w' (length (w_conts (M_run w0 hist))) = cont_obs (M_run w0 hist) c /\
+    (exists hs', nth_error (w_conts w') (length (w_conts (M_run w0 hist))) = Some hs' /\
+                 Forall (fun h => length (w_bufs (M_run w0 hist)) <= h_buf h /\ h_w h = false) hs').
+Proof. exact pickle_roundtrip. Qed.
+Print Assumptions C01_pickle_roundtrip.
+
+(* ... and, read off the CURRENT source: TypeBlocks.__setstate__ re-freezes every block and Series.__setstate__
+   re-freezes values, so the hypothesis holds for a TypeBlocks of any number of blocks. *)
+Theorem C01_setstate_refreezes_blocks_and_values : forall n,
+  forallb (fun b => b) (repeat pickle_flag_block n) = true /\ pickle_flag_series_values = true.
+Proof. exact (fun n => conj (proj2 (forallb_forall _ _) (fun b H => eq_trans (repeat_spec n _ b H) eq_refl)) eq_refl). Qed.
+Print Assumptions C01_setstate_refreezes_blocks_and_values.
+
+Theorem C01_deepcopy_roundtrip : forall hist c hs,
+  guarded w0 hist = true ->
+  nth_error (w_conts (M_run w0 hist)) c = Some hs ->
+  exists w', M_step (M_run w0 hist) (SDerive c (deep_dsrcs (length hs))) = Ok w' /\
+    cont_obs w' (length (w_conts (M_run w0 hist))) = cont_obs (M_run w0 hist) c /\
+    (exists hs', nth_error (w_conts w') (length (w_conts (M_run w0 hist))) = Some hs' /\
+                 Forall (fun h => length (w_bufs (M_run w0 hist)) <= h_buf h /\ h_w h = false) hs').
+Proof. exact deepcopy_roundtrip. Qed.
+Print Assumptions C01_deepcopy_roundtrip.
+
+(* Non-vacuity: a guarded history with a construction from a writeable view, an invisible caller write, a view
+   derivation, an exposure, a rejected write, a shared read-only argument, both round trips and own_data. *)
+Theorem C01_guarded_history_exists :
+  guarded w0 example_history = true /\
+  conts_obs (M_run w0 example_history) =
+    [ [([30; 20; 10]%Z, false); ([0; 1; 2]%Z, false)];
+      [([20; 10]%Z, false); ([0; 1]%Z, false)];
+      [([20; 10]%Z, false)];
+      [([20; 10]%Z, false)];
+      [([30; 20; 10]%Z, false); ([0; 1; 2]%Z, false)];
+      [([1; 2]%Z, false)] ] /\
+  callers_obs (M_run w0 example_history) =
+    [ ([-7; 20; 30]%Z, true); ([30; 20; -7]%Z, true); ([20; 10]%Z, false); ([1; 2]%Z, false) ].
+Proof. exact example_guarded. Qed.
+Print Assumptions C01_guarded_history_exists.
+
+(* Static tripwire over the ~160 freeze sites (census regenerated from the source on every run, bound = the pinned
+   table SF/HeapAudit.expected_protect): no function has lost a `flags.writeable = False` statement or an
+   immutable_filter call, and the only function that makes an array writeable again is the whitelisted one. *)
+Theorem C01_no_protect_site_lost : census_covers freeze_census expected_protect = true.
+Proof. exact (eq_refl true). Qed.
+Print Assumptions C01_no_protect_site_lost.
+
+Theorem C01_thaw_sites_whitelisted : thaw_sites freeze_census = thaw_whitelist.
+Proof. exact (eq_refl thaw_whitelist). Qed.
+Print Assumptions C01_thaw_sites_whitelisted.
